@@ -6,7 +6,7 @@ import vlib
 LEVEL = "exploration"
 MANIFEST = {
     "engine": "tlc PackGraph(ThinOn)/PackSource + vhpack c08a/c08b + tlc PackRecord/PackIndex + git index-pack",
-    "technique": "packs from two sources - every accepted PackGraph state (entry graphs <= 3/4 entries, duplicate objects, thin ref-deltas) rendered by the harness, and git pack-objects output over generated histories for the option matrix enumerated by PackSource.tla - are parsed by go-git's Parser in 5 modes; the resolved names (PackRecord.tla) and the decoded idx/rev tables (PackIndex.tla) are judged by TLC, idx/rev bytes are cmp'd with git index-pack --rev-index, thin packs are received through storage PackfileWriter and compared with git index-pack --fix-thin",
+    "technique": "packs from two sources - every accepted PackGraph state (entry graphs <= 3/4 entries, duplicate objects, thin ref-deltas, delta chains of exactly 4094 / 4095 / 4096 links) rendered by the harness, and git pack-objects output over generated histories for the option matrix enumerated by PackSource.tla - are parsed by go-git's Parser in 5 modes; the resolved names (PackRecord.tla) and the decoded idx/rev tables (PackIndex.tla) are judged by TLC, idx/rev bytes are cmp'd with git index-pack --rev-index, thin packs are received through storage PackfileWriter and compared with git index-pack --fix-thin",
     "text": "Spec packs: all well-formed graphs over {commit,tree,blob,tag,ofs,ref} with <= 3 (quick) / <= 4 (thorough) entries plus one duplicate entry or one thin ref-delta. git packs: 4 histories (linear edits, 8 similar blobs, 1.2 MiB blob edited twice, duplicate blobs + tag + empty objects) x window {0,1,10} x depth {0,1,4,50} x delta-base-offset x {all, incremental, incremental --thin} (1/6 sampled in quick); SHA-1, a seeded quarter in SHA-256.",
     "note": "Level exploration: git decides what a correct index is (byte comparison); the TLA+ predicates state the structure (sorted names, fanout, offsets, crc, rev order, resolved set) and explain a mismatch. Offsets >= 2^31 are not reachable with real packs here (C10 covers the 64-bit table at the idx level). PackSource's statements about which entry kinds git may emit are checked against git (violation = SpecError).",
 }
@@ -18,14 +18,14 @@ PG_CFG = """CONSTANTS
  MaxCorr = 1
  PairMod = 1
  PairSel = 0
- DeepMod = 100000
- DeepSel = 99999
+ DeepMod = 1
+ DeepSel = 0
  DepthLimit = 4095
  ThinOn = TRUE
  Emit = "print"
 INIT Init
 NEXT Next
-INVARIANTS T_BaseAccepted T_AcceptWF T_StreamSound T_OnlyBenign T_HardRejects T_Defects T_DeltaType T_ObjectCount EmitRow
+INVARIANTS T_BaseAccepted T_AcceptWF T_StreamSound T_OnlyBenign T_HardRejects T_Defects T_DeltaType T_ObjectCount T_DepthClasses EmitRow
 CHECK_DEADLOCK FALSE
 """
 
@@ -71,6 +71,7 @@ CHECK_DEADLOCK FALSE
 
 def write_rows(ctx, r, name, keep=None):
     rows = ctx.printed_json(r)
+    rows.sort(key=lambda x: json.dumps(x, sort_keys=True))   # parallel BFS prints in scheduling order
     if len(rows) != r.distinct or not rows:
         raise vlib.ToolingError("%s: %d rows printed for %d states" % (name, len(rows), r.distinct))
     p = ctx.path(name)
@@ -114,7 +115,26 @@ def run(ctx):
     d = ctx.specdir()
     maxn = 4 if ctx.thorough else 3
     r = ctx.tlc("MCPackGraph", cfg_text=PG_CFG % (maxn, s % 4), cfg="MCPackGraph_c08.cfg", timeout=1500)
-    rows, n_a = write_rows(ctx, r, "c08_rows.ndjson", keep=lambda row: row["v"] == "accept")
+    # chain-depth boundary family: a few packs per class (4094 / 4095 / 4096 links are real, costly entries)
+    allrows = ctx.printed_json(r)
+    if len(allrows) != r.distinct or not allrows:
+        raise vlib.ToolingError("PackGraph: %d rows printed for %d states" % (len(allrows), r.distinct))
+    allrows.sort(key=lambda x: json.dumps(x, sort_keys=True))
+    per_class = 3 if ctx.thorough else 1
+    sel = [row for row in allrows if row["deepl"] == "none" and row["v"] == "accept"]
+    kept_deep = []
+    for k in ("under", "max", "over"):
+        cand = [row for row in allrows if row["deepl"] == k]
+        if not cand:
+            raise vlib.ToolingError("C08: no graph is eligible for the chain-depth class %s" % k)
+        for j in range(min(per_class, len(cand))):
+            sel.append(cand[(s + j * 7) % len(cand)])
+            kept_deep.append(k)
+    rows = ctx.path("c08_rows.ndjson")
+    with open(rows, "w") as f:
+        for row in sel:
+            f.write(json.dumps(row) + "\n")
+    n_a = len(sel)
     ra = ctx.vh("c08a", [rows, os.path.join(d, "c08a.recs"), os.path.join(d, "c08a.idx"), 3000 if ctx.thorough else 200], pkg="vhpack", timeout=3000)
     mod = 1 if ctx.thorough else 6
     r2 = ctx.tlc("PackSource", cfg_text=PS_CFG % (mod, s % mod), timeout=600)
@@ -125,7 +145,7 @@ def run(ctx):
     ctx.cov["records_rejected_by_spec"] = bad
     ctx.cov["records"] = ra["extra"]["records"] + rb["extra"]["records"]
     ctx.cov["traces_validated_against_impl"] = ctx.cov["records"]
-    ctx.cov["bounds"] = {"spec_packs_max_entries": maxn, "spec_packs": n_a, "git_pack_scenarios": n_b, "git_scenario_selection": "1/%d" % mod,
+    ctx.cov["bounds"] = {"spec_packs_max_entries": maxn, "depth_boundary_packs": sorted(kept_deep), "spec_packs": n_a, "git_pack_scenarios": n_b, "git_scenario_selection": "1/%d" % mod,
                          "parser_modes": ["nostorage,seek", "nostorage,stream", "memory,stream", "fs-lowmem,seek", "fs-highmem,seek"]}
     ctx.cov["exhaustive"] = False
     ctx.cov["rule"] = ("one case = one pack (accepted PackGraph state, or one PackSource scenario run through git pack-objects) x parser mode; "
